@@ -107,6 +107,10 @@ def gen_scenario(tape):
     # None is a value like any other and must reach the accumulator in every regime
     if sc.acc in ("store", "store-items", "count", "probe") and tape.chance(1, 4, "callable-returns-None"):
         sc.pre.append(("callnone", tape.draw(8, "pred")))
+    # a callable whose result is a generator object: that object is the value, in every regime
+    if sc.acc in ("store", "store-items", "count", "probe") and not any(st[0] == "callnone" for st in sc.pre) \
+            and tape.chance(1, 6, "callable-returns-generator"):
+        sc.pre.append(("callgen",))
     sc.post = []
     for _ in range(tape.weighted([(3, 0), (3, 1), (1, 2)], "npost")):
         # per-value post elements, and run elements whose output depends on the whole flow of
@@ -262,6 +266,8 @@ def make_chain(sc, fills):
                 "v%d" % j, lambda d, f=f: tuple(f(x) for x in d) if isinstance(d, tuple) else f(d)))
         elif st[0] == "callnone":
             els.append(lambda v, p=PREDS[st[1]]: None if p(v) else v)
+        elif st[0] == "callgen":
+            els.append(lambda v: (x for x in (v, v)))
         elif st[0] == "filter":
             els.append(lena.flow.Filter(PREDS[st[1]]))
         elif st[0] == "slice":
@@ -313,6 +319,8 @@ def norm(x):
         return ("dict",) + tuple(sorted((repr(k), norm(v)) for k, v in x.items()))
     if x is None or isinstance(x, (bool, int, str)):
         return x
+    if type(x).__name__ == "generator":
+        return ("generator",)
     return ("obj", type(x).__name__, repr(x)[:60])
 
 
@@ -494,7 +502,8 @@ def culprit(sc, base, r, what):
             if a.fills != b.fills or a.exc != b.exc or a.hang != b.hang:
                 return {"call": "callable", "variable": "Variable", "filter": "Filter",
                         "slice": "Slice", "runif": "RunIf",
-                        "callnone": "callable-returning-None"}[sc.pre[j - 1][0]]
+                        "callnone": "callable-returning-None",
+                        "callgen": "callable-returning-a-generator"}[sc.pre[j - 1][0]]
     if what == "out" and sc.post:
         return "post-" + sc.acc
     return "acc-" + sc.acc
@@ -595,6 +604,10 @@ def adapter_case2(sc, res):
             return False, got, [("post", tuple(flow))]
         sp = lena.core.Split([lena.core.FillComputeSeq(ad)], bufsize=2)
         return False, list(sp.run(iter(flow))), [tuple(flow)]
+    if c == 9 and not decoy:
+        # an element that is both callable and iterable (every lena Source is): it is called
+        src = lena.core.Source(lena.core.SourceEl(lambda: iter(flow)), lambda v: ("inner", v))
+        return False, list(lena.core.SourceEl(src)()), [("inner", v) for v in flow]
     setattr(o, name, lambda: iter([("s", v) for v in flow]))
     if c == 8:
         s = lena.core.Source(lena.core.SourceEl(o, call=name), lambda v: ("post", v))
